@@ -20,8 +20,9 @@ import (
 
 func init() {
 	logging.SetLevel(logging.FatalLevel)
-	if spec := os.Getenv("VERIF_C15_CHILD"); spec != "" {
-		runChild(spec)
+	if os.Getenv("VERIF_C15_CHILD") == "worker" {
+		runWorker()
+		os.Exit(0)
 	}
 	fw.Register(Prop)
 }
